@@ -121,7 +121,7 @@ func genHostileFrame(t *rapid.T, i int) hostileFrame {
 		}
 		text = obj(id, nil, nil, extra)
 	case 9:
-		m := rapid.SampledFrom([]string{"T.Add", "T.Raw", "Tok.Sub", "Tok.Call", "Rev.Ident", "rev.alias", "T.Missing", "", "xrpc.", "xrpc.cancel2"}).Draw(t, l+"_m")
+		m := rapid.SampledFrom([]string{"T.Add", "T.Raw", "Tok.Sub", "Tok.Call", "Rev.Ident", "rev.alias", "T.Missing", "", "xrpc.", "xrpc.cancel2", "alias.add", "alias.missing", "Tok.SubVia"}).Draw(t, l+"_m")
 		extra := ""
 		if rapid.IntRange(0, 3).Draw(t, l+"_meta") == 0 {
 			extra = `"meta":` + rapid.SampledFrom([]string{`{"SpanContext":"AAAA"}`, `{"SpanContext":""}`, `{"SpanContext":"!!!"}`, `{"x":"y"}`, `{"SpanContext":"AAECAwQFBgcICQoLDA0ODxAREhMUFRYXGBkaGxwdHh8gISIjJCUmJygpKissLS4vMDEyMzQ1Njc4OTo7PD0+Pw=="}`, "5", "null"}).Draw(t, l+"_metav")
@@ -595,6 +595,12 @@ func TestC10(t *testing.T) {
 		return env.runClient(c)
 	})
 	t.Run("grid", func(t *testing.T) {
+		// calls by alias: to a registered method, and to a target nobody registered (a dangling alias is accepted silently)
+		for _, m := range []string{"alias.add", "alias.missing"} {
+			for _, id := range []string{`"id":5,`, ""} {
+				run(t, c10Case{Target: "server", Frames: []hostileFrame{{Text: `{"jsonrpc":"2.0",` + id + `"method":"` + m + `","params":[1,2]}`}}})
+			}
+		}
 		// every built-in x every parameter shape x a few values, one frame per case
 		shapes := []string{"", "null", "[]", "[%s]", "[%s,%s]", "[%s,%s,%s]", `{"id":%s}`, "%s"}
 		vals := []string{"1", "2", `"s"`, "[1]", "{}", "null", "1.5", "-1", "true", "18446744073709551616"}
